@@ -112,6 +112,18 @@ Theorem C18_expand_total : forall n, exists pats, expand n = Ok pats.
 Proof. exact expand_total. Qed.
 Print Assumptions C18_expand_total.
 
+(* backend rendering of the expansion (no cidr_expression): whatever convert_or_as_in and
+   in_expressions_allow_wildcards are, the query the model renders - a value list only when the list may
+   hold the patterns, else the (grouped) OR - read with the semantics the backend declares for value lists
+   (literals unless wildcards are allowed) matches exactly the texts the pattern list matches.
+   Premise: the patterns consist of plain characters and '*' (checked per case by the correspondence). *)
+Theorem C18_render_semantics :
+  forall or_as_in allow_wild pats t,
+    forallb pat_chars pats = true ->
+    rquery_matches allow_wild (render_struct or_as_in allow_wild pats) t = covered pats t.
+Proof. exact render_semantics. Qed.
+Print Assumptions C18_render_semantics.
+
 (* non-vacuity: the premises are inhabited by a non-trivial network: 10.0.0.0/7 gives the two patterns "10." and "11." followed by the wildcard *)
 Example C18_premises_inhabited :
   wf_net 32 167772160 7 /\ expand4 167772160 7 = [[49;48;46;42]; [49;49;46;42]].
